@@ -105,6 +105,26 @@ CHECKS = {
          "DESIGN.md §2 C18"),
 }
 
+# additions made after the first version of each check (seeded rounds 2-4), appended to the level text
+ADD = {
+ "C01": " Host names are also taken from a constants dictionary (every string literal of the client and public-suffix sources that can be a label or name - which includes every label of the generated suffix table - alone, below and above a registrable domain and with a letter glued on either side), and custom providers fail with each of their error variants.",
+ "C02": " Extension interplay is a dimension (hmac-secret configurations of the authenticator, credProps/prf members in the request), also inside the sequences.",
+ "C03": " Extension interplay (authenticator with hmac-secret, credProps / empty prf / prf on an incapable authenticator) and allow-list entries of unknown type are part of the action alphabet.",
+ "C04": " At CTAP2 level the whole product also runs on an authenticator with hmac-secret enabled, credentials carrying secrets and requests asking for a PRF evaluation.",
+ "C05": " RP IDs also in upper case and with a trailing dot; descriptors with five transports-hint shapes; stores that answer Ok(empty).",
+ "C06": " A credential created by the library itself is additionally asserted (CTAP2 level and through the client with pre-hashed inputs) with every salt of a constants dictionary: each string literal of the library sources of the current working tree as SHA-256, zero-padded, and under the client's salt derivation.",
+ "C07": " Silent assertions (up=false) with and without PRF, late-failing requests.",
+ "C08": " The same histories also on Arc<Mutex<MemoryStore>>; silent assertions.",
+ "C09": " Quick tier covers salt lengths {0,16,32,33,64} and two-salt requests.",
+ "C10": " Every label of the list's vocabulary is crossed with every rule body (quick: the 64 most frequent labels).",
+ "C11": " The product additionally runs over hmac-secret configuration (4) x prf input (3) x counters: 1956 configurations.",
+ "C13": " A further value variant has every nested optional structure and list present but empty, and every serialisation must be exactly one CBOR map spanning all bytes written.",
+ "C15": " Scaling families: 14 well-formed shapes whose collection grows to 256..16384 (65536) elements with keys differing only at the front / end / middle; 4x the elements may cost at most 9x the thread CPU time and no allocation out of proportion.",
+ "C17": " Control byte {0x03,0x07,0x08} x further flag bits in every single run.",
+ "C18": " Present-but-empty allow/exclude lists; descriptor type {public-key, unknown}; sequence alphabet of six operations.",
+ "C19": " Non-resident registrations and list-less assertions are part of the scenarios.",
+}
+
 NOT_BUILT = "check not built yet in this revision of the harness (planned per DESIGN.md §2); no claim is made"
 
 def main():
@@ -120,7 +140,7 @@ def main():
             "evidence_file": f"/verif/evidence/{pid}.json",
             "replay_cmd_template": f"./vcheck {pid} --replay {{path}}",
             "engine": "vcheck",
-            "level_claimed": {"category": cat, "text": text, "design_ref": ref},
+            "level_claimed": {"category": cat, "text": text + ADD.get(pid, ""), "design_ref": ref},
             "level_note": note,
             "technique": tech,
         })
